@@ -10,7 +10,7 @@ from vlib import *
 FAMILY = ["C02", "C03", "C04", "C05", "C09", "C13", "C18"]
 
 INVS = ("TypeOK RoFresh CountMatches AtMostRF OneWO InServiceHoldAcked SignalAfterMajority SignalsMax "
-        "ElectedFreshest CheckpointAgreed SnapSamePoint")
+        "CheckpointAgreed SnapSamePoint")
 PROPS_ACT = ("ReadFresh WriteGate AckMajority FailedDetached RemovedSilent OnlySignalledStarts SnapNeedsAllRW "
              "CheckpointIsLatestWhenSet")
 
@@ -61,10 +61,10 @@ MC = {
     "C09": dict(quick=[cfgd(MaxW=1, Ops={"sigfail", "createfail"})],
                 thorough=[cfgd(MaxW=2, Ops={"sigfail", "createfail", "rebuilding"}),
                           cfgd(RF=3, Addr=addrs(4), MaxW=1, Ops={"sigfail"})],
-                mutants=[("electRegistrant", "SignalsMax|ElectedFreshest")]),
-    "C13": dict(quick=[cfgd(RF=1, Addr=addrs(2), MaxW=1, MaxSnap=2, Ops={"snapshot", "snapfail", "cpfail"}),
-                       cfgd(MaxW=1, MaxSnap=2, Ops={"snapshot"})],
-                thorough=[cfgd(MaxW=1, MaxSnap=2, Ops={"snapshot", "snapfail", "cpfail"})],
+                mutants=[("electRegistrant", "SignalsMax")]),
+    "C13": dict(quick=[cfgd(RF=1, Addr=addrs(2), MaxW=1, MaxSnap=1, Ops={"snapshot", "snapfail", "cpfail"})],
+                thorough=[cfgd(RF=1, Addr=addrs(2), MaxW=1, MaxSnap=2, Ops={"snapshot", "snapfail", "cpfail"}),
+                          cfgd(MaxW=1, MaxSnap=2, Ops={"snapshot"})],
                 mutants=[("snapNoGate", "SnapNeedsAllRW")]),
     "C18": dict(quick=[cfgd(RF=1, Addr=addrs(2), MaxW=1, Ops={"seterr", "createfail"}), cfgd(MaxW=1, Ops={"seterr"})],
                 thorough=[cfgd(MaxW=1, Ops={"seterr", "createfail", "read"}),
